@@ -21,6 +21,7 @@ package batchresource
 
 // "Pod no tighter than any container": the conversions are monotone, so a pod value computed from an amount that
 // is >= a container's amount is >= that container's value (and a limited pod value means the amount was positive).
+//@ opaque scaled
 //@ lemma sharesMonotone [C14]: forall a int64, b int64 :: a <= b ==> sharesOf(a) <= sharesOf(b)
 //@ lemma quotaMonotone [C14]: forall a int64, b int64 :: 0 < a && a <= b ==> 0 < quotaOf(a) && quotaOf(a) <= quotaOf(b)
 //@ lemma quotaUnlimited [C14]: forall a int64 :: quotaOf(a) == 0 - 1 <==> a <= 0
@@ -139,6 +140,7 @@ package batchresource
 // otherwise >= the (equally ratio-scaled) quota of every listed container. The amount handed to the conversion is
 // checked at the call (assert after call): -1, or >= every container's positive amount and >= any two together.
 //@ func (*plugin).SetPodCFSQuota [C14]
+//@   use lemma cfsNoTighter scaledMonotone scaledUnlimited
 //@   requires typeis(proto, *protocol.PodContext)
 //@   requires p != nil && p.rule != nil
 //@   let c = payload(proto, *protocol.PodContext)
